@@ -19,6 +19,7 @@ Line protocol (stateless, one case per line):
                 s | t              push_updater.start() | .stop() on the held object
                 L0 | L1 | L2       atv.listener = None | the object registered last (a new one if none is held) | a new object
                 M0 | M1 | M2       push_updater.listener = None | same object | new object
+                K                  the caller cancels every task close() has handed out so far
                 x                  the user drops the device object, keeps the interface objects obtained before
                 p<i><beh>          protocol i's push updater posts an update (beh = the PushListener handler)
   → <outs> N=<notified> C=<calls_made> K=<close log> P=<id:tasks|-> B=<per member 1 blocked/0> S=<push on> R=<raised> I=<inner>
@@ -74,6 +75,7 @@ def parseEv? (w : String) : Option Ev :=
   | ['t'] => some .pushStop
   | ['x'] => some .dropDevice
   | ['c'] => some .connectNext
+  | ['K'] => some .tasksCancelled
   | ['s', 'F'] => some .pushStartFault
   | ['L', '0'] => some (.setListener false)
   | ['L', '1'] => some (.setListener true)
